@@ -100,6 +100,12 @@ def run(prop, tier, seed, known):
                 got = chord.evaluate(np.array(ri), rl, np.array(ei), el)
             except Exception as ex:
                 fails.append('chord.evaluate raised %s on a valid input: ref %s %s est %s %s' % (type(ex).__name__, ri, rl, ei, el))
+                try:
+                    chord.evaluate(np.array(ri) + 1.0, rl, np.array(ei) + 1.0, el)
+                    fails.append('chord.evaluate changes under a common time shift of 1.0: it raises %s at this origin and returns scores after the shift (ref %s %s, est %s %s)'
+                                 % (type(ex).__name__, ri, rl, ei, el))
+                except Exception:
+                    pass
                 continue
             want = definition(ri, rl, ei, el)
             for rule in RULES:
